@@ -208,3 +208,49 @@ func (r *GraphRec) Attach(m *Machine) {
 		r.G.AddEdge(r.node(st), node, nil)
 	}
 }
+
+// Words enumerates the event words of an acyclic graph (ε edges collapsed).  ok=false when the graph
+// has a cycle or more than limit words.
+func (g *Graph) Words(limit int) ([][]*Event, bool) {
+	var out [][]*Event
+	onPath := map[int]bool{}
+	ok := true
+	var walk func(n int, cur []*Event)
+	walk = func(n int, cur []*Event) {
+		if !ok {
+			return
+		}
+		if onPath[n] {
+			ok = false
+			return
+		}
+		if len(g.Out[n]) == 0 {
+			w := make([]*Event, len(cur))
+			copy(w, cur)
+			out = append(out, w)
+			if len(out) > limit {
+				ok = false
+			}
+			return
+		}
+		onPath[n] = true
+		for _, e := range g.Out[n] {
+			if e.Ev == nil {
+				walk(e.To, cur)
+			} else {
+				walk(e.To, append(cur, e.Ev))
+			}
+		}
+		onPath[n] = false
+	}
+	walk(g.Start, nil)
+	return out, ok
+}
+
+func wordString(w []*Event) string {
+	parts := make([]string, len(w))
+	for i, e := range w {
+		parts[i] = e.String()
+	}
+	return strings.Join(parts, " ; ")
+}
